@@ -35,6 +35,19 @@ type Case struct {
 }
 
 func genElements(t *rapid.T) []byte {
+	if gen.Chance(t, "boundarytotal", 1, 25) {
+		// embedded content whose total length sits on a DER length-form boundary or at the top of the range:
+		// one OCTET STRING sized so that header + data is exactly the target
+		target := rapid.SampledFrom([]int{127, 128, 129, 255, 256, 257, 65535, 65536, 65537, 70000}).Draw(t, "total")
+		for data := target; data >= 0; data-- {
+			if e := der.Octets(make([]byte, data)).Encode(); len(e) == target {
+				copy(e[len(e)-data:], gen.FillBytes(t, data))
+				return e
+			} else if len(e) < target {
+				break
+			}
+		}
+	}
 	var out []byte
 	for i := rapid.IntRange(1, 3).Draw(t, "nel"); i > 0; i-- {
 		var n *der.Node
